@@ -232,6 +232,14 @@ def r4(ctx):
             cs = sorted({c for c in eff["consts"] if c.startswith("DEFAULT_")})
             got[key] = cs
         name = X.short(b.path)
+        # the table must be applied to the type itself: a scrutinee that was preprocessed (e.g. `self.as_inner_type()`, which also
+        # looks through SEQUENCE OF / SET OF) gives a list the tag of its elements
+        scr = sorted({a.path[0][0] for a in arms if a.path[0][1] in table or "/".join(v for _, v in a.path) in table})
+        if scr and not all(re.match(r"^\$\d+$", x) for x in scr):
+            ctx.fail(rule, "%s#scrutinee" % name, "the tag table of %s is applied to `%s`, not to the type it was asked about" % (name, scr[0][:80]),
+                     "%s:%d" % (b.file, b.line), {"function": b.path, "scrutinee": scr})
+        elif scr:
+            ctx.ok(rule, "%s#scrutinee" % name, {"function": b.path, "scrutinee": scr})
         for variant, tyname in sorted(table.items()):
             cs = got.get(variant)
             key = "%s#%s" % (name, variant)
